@@ -146,6 +146,18 @@ theorem C07_string_literal_lexes (st : PState) (TS : List Tok) (lt slt : Option 
   let ⟨ts, lt', h1, _, h3⟩ := K_str st TS lt slt s paren hK hr hsafe
   ⟨ts, lt', h1, h3⟩
 
+/-- **The prediction behind repair C07-7 is sound, for every state and line length.**  In operand position (`paren = true`)
+`breakLongStr` either writes the literal whole — `'…'` after at most a blank or a line break, closed by `'` or `' ` — or it has
+decided to parenthesise (`splitParen`, then the text is `( '…' + '…' )` by `C07_breakLongStr_exact`): the look-ahead
+`literalSplits` follows `curpos` through every piece exactly as `breakPieces` does, so an unparenthesised `'a.' + 'b'` — which under
+a tighter operator would be a different expression — cannot arise there.  Excluded: strings containing a newline (the scanner's
+string rule ends at the end of the line, so no parsed schema has one). -/
+theorem C07_operand_literal_whole_or_parenthesised_partial (st : PState) (s : List Char) (hnl : '\n' ∉ s) :
+    (∃ W tail, W.all isWsC = true ∧ (tail = [] ∨ tail = [' ']) ∧
+        (breakLongStr st s true).text = st.text ++ W ++ ['\''] ++ escQ s ++ ['\''] ++ tail)
+    ∨ splitParen st (splitDots (escQ s)) true = true :=
+  operand_literal_whole_or_paren st s hnl
+
 /-- **Character level with string literals, every line length.**  As `C07_lex_layout_respelled_partial`, simple string
 literals allowed (`lexWFS`): the scanner reads the laid-out text of `e` as tokens `ts` that are the tokens of the expression
 (`toks (respell e)`) except that a string literal may have been read as a split rendering of it (`Joined`: `'a.' + 'b'`, possibly
